@@ -520,6 +520,9 @@ func c01Judge(c spec.Case, evs []spec.Event, d *Death) CaseResult {
 	default:
 		outcome = "reject"
 		res.Counters["rejected"]++
+		if o.RetryOK || o.RetryProtocol != "" || o.RetryRC {
+			viol("rejected-line-remembered", fmt.Sprintf("Start rejected the line (%s) but the client is left half-started: a second Start returns ok=%v addr=%q, Protocol()=%q, ReattachConfig()!=nil: %v", trunc(o.Err, 80), o.RetryOK, o.RetryAddr, o.RetryProtocol, o.RetryRC))
+		}
 		if len(exp.MustReject) == 0 {
 			outcome = "strict-reject"
 			res.Counters["strict_reject"]++
